@@ -69,7 +69,7 @@ type c02spec struct {
 }
 
 func checkC02(ctx *Ctx, r *Report, tier string) {
-	r.Explain = "Each combinator's constructor is composed symbolically with the Evaluate of the object it returns; the composite closed form over constructor parameters, query point and opaque operand evaluations is compared, as a rational identity, with the formula the operation's name and documentation promise (pointwise min/max, max(a,−b), operand evaluated at the mapped point, distance scaled by k, twist handedness, kept side of a cut, wedge of a partial revolution ...). Stored inverse matrices are validated by multiplying them with the parameter (identity in all entries). Loops (union, array, rotate-union) are validated through their recurrences. Blend bounds, voxel weights and numerical accuracy are not decided."
+	r.Explain = "Each combinator's constructor is composed symbolically with the Evaluate of the object it returns; the composite closed form over constructor parameters, query point and opaque operand evaluations is compared, as a rational identity, with the formula the operation's name and documentation promise (pointwise min/max, max(a,−b), operand evaluated at the mapped point, distance scaled by k, twist handedness, kept side of a cut, wedge of a partial revolution ...). Stored inverse matrices are validated by multiplying them with the parameter (identity in all entries). Loops (union, array, rotate-union) are validated through their recurrences. Blend bounds, voxel weights and numerical accuracy are not decided. Also: Slice2D's frame, the loft's mix factor, the polynomial blend kernel on an exact rational grid, the screw's taper as the tangent of its angle."
 	r.Trusted = []string{"go/types", "go/ssa", "sdfxlint symbolic evaluator (composition of constructor and method)", "exact polynomial identity testing", "operands are arbitrary pure functions (opaque)"}
 	r.Assume = []string{"floating-point rounding is outside the claim"}
 	pX, pY, pZ := A("p.X"), A("p.Y"), A("p.Z")
